@@ -1001,3 +1001,131 @@ func TestPropRedefinedAnchors(t *testing.T) {
 		recRedef.MaybeSample(nt, func() any { return text })
 	})
 }
+
+// ---------------------------------------------------------------------------
+// Large inputs: documents of 64 KiB to 16 MiB (the shared oracle above stops at 1 MiB to keep the
+// fuzzer fast). A document that is cut short - by a read limit, a buffer boundary, a size check on
+// one path only - is very often still well-formed YAML when its lines are short or the cut falls inside
+// a plain or block scalar, so the result looks usable and simply holds fewer steps.
+
+var recLarge = ev.New("TestPropLargeInputs", "well-formed documents of a drawn size (64 KiB, 256 KiB, 1, 2, 4, 8 or 16 MiB, plus up to 8 KiB) made of 3-2000 command / wait steps, the bulk in one or more long command scalars (plain multi-line, literal block, double-quoted, or very many short steps) placed before, between and after the other steps: a usable result holds exactly the steps written, each command text byte for byte; a hard error is permitted by the statement and counted; non-trivial = larger than 1 MiB with steps after the bulk; distinct by size, shape and step count")
+
+func TestPropLargeInputs(t *testing.T) {
+	ev.Check(t, 14, 300, func(t *rapid.T) {
+		size := rapid.SampledFrom([]int{1 << 16, 1 << 18, 1 << 20, 1 << 21, 1 << 22, 1 << 23, 1 << 24}).Draw(t, "size") + rapid.IntRange(0, 8192).Draw(t, "jitter")
+		shape := rapid.IntRange(0, 3).Draw(t, "shape")
+		var b strings.Builder
+		var want []string // command text per step ("\x00wait" for a wait step)
+		if rapid.Bool().Draw(t, "mapform") {
+			b.WriteString("env:\n  A: b\nsteps:\n")
+		}
+		small := func(i int) {
+			if rapid.IntRange(0, 5).Draw(t, "wait") == 0 {
+				b.WriteString("- wait\n")
+				want = append(want, "\x00wait")
+				return
+			}
+			c := fmt.Sprintf("echo step %d", i)
+			fmt.Fprintf(&b, "- command: %s\n", c)
+			want = append(want, c)
+		}
+		lead := rapid.IntRange(0, 3).Draw(t, "lead")
+		for i := 0; i < lead; i++ {
+			small(i)
+		}
+		line := rapid.SampledFrom([]string{"echo 0123456789 abcdefghijklmnopqrstuvwxyz", "make -j8 target", "x"}).Draw(t, "line")
+		switch shape {
+		case 0:
+			// very many short steps
+			for i := 0; b.Len() < size; i++ {
+				c := fmt.Sprintf("echo %d", i)
+				fmt.Fprintf(&b, "- command: %s\n", c)
+				want = append(want, c)
+			}
+		default:
+			chunks := rapid.IntRange(1, 3).Draw(t, "chunks")
+			for c := 0; c < chunks; c++ {
+				n := (size/chunks)/(len(line)+1) + 1
+				var text string
+				switch shape {
+				case 1:
+					// literal block scalar
+					b.WriteString("- command: |-\n")
+					for i := 0; i < n; i++ {
+						b.WriteString("    " + line + "\n")
+					}
+					text = strings.TrimSuffix(strings.Repeat(line+"\n", n), "\n")
+				case 2:
+					// one long plain scalar on one line
+					text = strings.TrimSuffix(strings.Repeat(line+" ", n), " ")
+					b.WriteString("- command: " + text + "\n")
+				default:
+					// double-quoted with escaped line feeds
+					b.WriteString("- command: \"")
+					for i := 0; i < n; i++ {
+						if i > 0 {
+							b.WriteString("\\n")
+						}
+						b.WriteString(line)
+					}
+					b.WriteString("\"\n")
+					text = strings.TrimSuffix(strings.Repeat(line+"\n", n), "\n")
+				}
+				want = append(want, text)
+				small(1000 + c)
+			}
+		}
+		trail := rapid.IntRange(1, 4).Draw(t, "trail")
+		for i := 0; i < trail; i++ {
+			small(2000 + i)
+		}
+		text := b.String()
+		var p *pipeline.Pipeline
+		var err error
+		func() {
+			defer func() {
+				if r := recover(); r != nil {
+					err = fmt.Errorf("PANIC: %v", r)
+					p = nil
+					t.Fatalf("Parse panicked on a %d-byte document (shape %d): %v", len(text), shape, r)
+				}
+			}()
+			p, err = pipeline.Parse(strings.NewReader(text))
+		}()
+		cls := []string{fmt.Sprintf("shape=%d", shape), fmt.Sprintf("size>=%dKiB", (size>>16)<<6)}
+		if err != nil && !warning.Is(err) {
+			recLarge.Case(ev.Hash(size, shape, len(want)), false, append(cls, "hard-error")...)
+			return
+		}
+		if p == nil || len(p.Steps) != len(want) {
+			n := -1
+			if p != nil {
+				n = len(p.Steps)
+			}
+			t.Fatalf("a %d-byte document (shape %d) of %d steps parses to a usable result (err = %v) holding %d steps\nfirst bytes: %q\nlast bytes: %q", len(text), shape, len(want), err, n, text[:200], text[len(text)-200:])
+		}
+		for i, w := range want {
+			switch s := p.Steps[i].(type) {
+			case *pipeline.WaitStep:
+				if w != "\x00wait" {
+					t.Fatalf("step %d is a wait step, written as a command step", i)
+				}
+			case *pipeline.CommandStep:
+				if s.Command != w {
+					d := 0
+					for d < len(w) && d < len(s.Command) && w[d] == s.Command[d] {
+						d++
+					}
+					t.Fatalf("step %d of a %d-byte document: command text differs from what was written (lengths %d vs %d, first difference at byte %d)", i, len(text), len(s.Command), len(w), d)
+				}
+			default:
+				t.Fatalf("step %d of a %d-byte document is a %T (err = %v)", i, len(text), s, err)
+			}
+		}
+		nt := len(text) > 1<<20
+		recLarge.Case(ev.Hash(size, shape, len(want)), nt, cls...)
+		recLarge.MaybeSample(nt, func() any {
+			return map[string]any{"bytes": len(text), "shape": shape, "steps": len(want)}
+		})
+	})
+}
